@@ -227,6 +227,8 @@ var profC17 = profile{
 	setups: []string{"totp", "sms", "recovery", "expire"}, kinds: kindsC17, minOps: 14, maxOps: 36,
 	accts: [2]int{2, 3}, browsers: [2]int{1, 2}, middlewares: []string{"", "remember", "remember", "expire"},
 	tweak: func(t *rapid.T, c *harness.Config) { c.LockAfter = rapid.IntRange(3, 6).Draw(t, "lockafter17") },
+	// error paths log and render too: secrets must stay out of storage, logs and mail whichever backend call fails
+	faultPct: 10, faultKinds: []string{"generic", "generic", "notfound"},
 }
 
 func TestC17(t *testing.T) {
